@@ -79,23 +79,39 @@ def layers? : List String → Option (List (Layer Float × Mat Float))
       some ((l, A) :: tl)
   | _ => none
 
-/-- smallest gap between the decision value and its runner-up (arg-max) or the threshold (one channel) -/
-def margin (O : Mat Float) : Float :=
-  (List.range O.r).foldl (fun m i =>
-    let row := O.row i
-    let g : Float :=
-      if O.c = 1 then Spec.absF (O.get i 0 - 0.5)
-      else
-        let best := argmax row
-        (List.range O.c).foldl (fun g k => if k = best then g else
-          let d := O.get i best - O.get i k
-          if d < g then d else g) 1e300
-    if g < m then g else m) 1e300
+def container? : String → Option Container
+  | "csr" => some .csrMatrix | "csc" => some .cscMatrix | "coo" => some .cooMatrix | "lil" => some .lilMatrix
+  | "ndarray" => some .ndarray | "other" => some .other | _ => none
+
+/-- the stored (column, value) pairs of the rows of a CSR matrix -/
+def csrRows (n : Nat) (ip ix : List Nat) (dt : List Float) : List (List (Nat × Float)) :=
+  tab n fun i =>
+    let lo := ip.getD i 0
+    (List.range (ip.getD (i+1) 0 - lo)).map fun p => (ix.getD (lo + p) 0, dt.getD (lo + p) 0)
+
+def insertNat (x : Nat) : List Nat → List Nat
+  | [] => [x]
+  | y :: ys => if x ≤ y then x :: y :: ys else y :: insertNat x ys
+
+def sortNat (l : List Nat) : List Nat := l.foldr insertNat []
+
+/-- a string token: `''` is the empty string, `~` a blank -/
+def unq (t : String) : String := if t == "''" then "" else t.replace "~" " "
+
+def optStr (t : String) : Option String := if t == "_" then none else some (unq t)
 
 def handle : Handler
-  | "c19.forward", [n, s, a, A, X, W, b] => some <| Option.getD (do
+  | "c19.forward", [k, n, s, a, A, X, W, b] => some <| Option.getD (do
       let cfg : LayerCfg := { norm := ← norm? n, selfEmb := ← bool? s, act := ← act? a }
-      some (showRes (forward cfg (← mat? A) (← mat? X) (← mat? W) (← bias? b)))) "bad-args"
+      some (showRes (forwardIn (← container? k) cfg (← mat? A) (← mat? X) (← mat? W) (← bias? b)))) "bad-args"
+  | "c19.check_format", [k] => some <| Option.getD (do
+      match checkFormat (← container? k) with
+      | .ok _ => some "ok"
+      | .error e => some (showErr e)) "bad-args"
+  | "c19.check_norms", [names] => some <| Option.getD (do
+      match checkNormalizations ((names.splitOn ";").map optStr) with
+      | .ok _ => some "ok"
+      | .error e => some (showErr e)) "bad-args"
   | "c19.spec_forward", [n, s, a, A, X, W, b, O] => some <| Option.getD (do
       let cfg : LayerCfg := { norm := ← norm? n, selfEmb := ← bool? s, act := ← act? a }
       let A ← mat? A
@@ -161,7 +177,7 @@ def handle : Handler
   | "c19.predict", [O] => some <| Option.getD (do
       let O ← mat? O
       match computePredictions O with
-      | .ok l => some s!"ok {showList l} {showF (margin O)}"
+      | .ok l => some s!"ok {showList l}"
       | .error e => some (showErr e)) "bad-args"
   | "c19.spec_predict", [O, l] => some <| Option.getD (do
       let O ← mat? O
@@ -185,9 +201,7 @@ def handle : Handler
         | none => some "holds"
         | some i => some s!"fails label-not-most-probable row={i}") "bad-args"
   | "c19.resolve", [layer, activation, loss, normalization, se, c] => some <| Option.getD (do
-      let unq := fun (t : String) => if t == "''" then "" else t.replace "~" " "
-      let loss := if loss == "_" then none else some (unq loss)
-      match resolveLayer (unq layer) (unq activation) loss (unq normalization) (← bool? se) (← c.toNat?) with
+      match resolveLayer (unq layer) (unq activation) (optStr loss) (optStr normalization) (← bool? se) (← c.toNat?) with
       | .error e => some (showErr e)
       | .ok (cfg, k) =>
         let ns := match cfg.norm with | .left => "left" | .right => "right" | .both => "both" | .none => "none"
@@ -198,26 +212,34 @@ def handle : Handler
       match checkOutput (← c.toNat?) (← natList? y) with
       | .ok _ => some "ok"
       | .error e => some (showErr e)) "bad-args"
-  | "c19.sample", [n, ip, ix, ch] => some <| Option.getD (do
+  | "c19.sample", [n, ip, ix, dt, ch] => some <| Option.getD (do
       let n ← n.toNat?
-      some ("ok " ++ showListList (sampleRows (← natList? ip) (← natList? ix) n (← rows? n ch)))) "bad-args"
-  | "c19.contract_choice", [n, ip, k, ch] => some <| Option.getD (do
+      let rows := csrRows n (← natList? ip) (← natList? ix) (← bitsList? dt)
+      some ("ok " ++ showListList (sampleRows rows (← rows? n ch)))) "bad-args"
+  | "c19.contract_choice", [n, degs, k, ch] => some <| Option.getD (do
       let n ← n.toNat?
-      let ip ← natList? ip
+      let degs ← natList? degs
       let k ← k.toNat?
       let ch ← rows? n ch
-      let ok := ch.length == n && (List.range n).all fun i => choiceOk (ip.getD (i+1) 0 - ip.getD i 0) k (ch.getD i [])
+      let ok := ch.length == n && degs.length == n && (List.range n).all fun i => choiceOk (degs.getD i 0) k (ch.getD i [])
       some (if ok then "holds" else "fails")) "bad-args"
-  | "c19.spec_sample", [n, ip, ix, k, rows] => some <| Option.getD (do
+  -- a sampled row is a sublist of the stored non-zero row (storage order), of size min(#non-zero, k)
+  | "c19.spec_sample", [n, ip, ix, dt, k, rows] => some <| Option.getD (do
       let n ← n.toNat?
-      let ip ← natList? ip
-      let ix ← natList? ix
+      let orig := csrRows n (← natList? ip) (← natList? ix) (← bitsList? dt)
       let k ← k.toNat?
       let rows ← rows? n rows
       let ok := rows.length == n && (List.range n).all fun i =>
-        let lo := ip.getD i 0
-        let orig := (List.range (ip.getD (i+1) 0 - lo)).map fun p => ix.getD (lo + p) 0
-        Spec.sampleRowOk orig (rows.getD i []) k
+        Spec.sampleRowOk (((orig.getD i []).filter fun e => e.2 != 0).map (·.1)) (rows.getD i []) k
+      some (if ok then "holds" else "fails")) "bad-args"
+  -- the same up to the order inside a row (the container handed to `fit` may be stored in another order)
+  | "c19.spec_sample_set", [n, ip, ix, dt, k, rows] => some <| Option.getD (do
+      let n ← n.toNat?
+      let orig := csrRows n (← natList? ip) (← natList? ix) (← bitsList? dt)
+      let k ← k.toNat?
+      let rows ← rows? n rows
+      let ok := rows.length == n && (List.range n).all fun i =>
+        Spec.sampleRowOk (sortNat (((orig.getD i []).filter fun e => e.2 != 0).map (·.1))) (sortNat (rows.getD i [])) k
       some (if ok then "holds" else "fails")) "bad-args"
   | _, _ => none
 
